@@ -1,7 +1,8 @@
 LEVEL = "exploration"
 RULE = ("hist: one case = (synthetic raster: size from 2x3..360x181 (thorough ..1440x721), one of 10 pixel fields, offset/scale ladder) x "
         "{bilinear,cubic} x a random operation history of 50-2000 height/ConvertHeight queries interleaved with CacheArea (11 rectangle "
-        "kinds incl. wrapping, polar, degenerate, inverted), CacheAll, CacheClear; the query list is re-evaluated on five other objects "
+        "kinds incl. wrapping, polar, degenerate, inverted), CacheAll, CacheClear, and CacheArea/CacheAll calls in which a planted allocation "
+        "fault (replaced global operator new throws bad_alloc at the k-th allocation) must surface as GeographicErr and leave no cache; the query list is re-evaluated on five other objects "
         "(fresh object per query, CacheAll, threadsafe, another random history, reversed history) and every query counts as one "
         "evaluation: its six results must be bit-identical and equal the long-double reference within the round-off model; "
         "struct: one case = raster x structural laws (nodes, edge linearity, continuity, periodicity, polynomial fields, pole); "
@@ -47,7 +48,9 @@ def extra(res, tier, seed, workdir):
         res.inconclusive.append("cache-path pairs never compared: " + ", ".join(missing))
     for must in ("file lost: CacheArea-object-inside served value", "file lost: uncached-object raised GeographicErr",
                  "malformed-file outcome: reject-class -> GeographicErr", "malformed-file outcome: accept-class -> accepted",
-                 "threadsafe CacheArea refused with GeographicErr", "cache-extent law checked"):
+                 "threadsafe CacheArea refused with GeographicErr", "cache-extent law checked",
+                 "allocation fault in CacheArea/CacheAll -> GeographicErr: cubic (a cache was active before)",
+                 "allocation fault in CacheArea/CacheAll -> GeographicErr: bilinear (a cache was active before)"):
         if not res.events.get(must):
             res.inconclusive.append("expected regime never observed: " + must)
     try:
